@@ -19,6 +19,7 @@ def gen_frag_case(rng):
             elif r < 0.93: cmds.append([8, rng.choice(classes), rng.randrange(nh), rng.randrange(5)])
             else: cmds.append([12, rng.randrange(9)])
         r = rng.random()
+        if last and r < 0.40: r = 0.99                    # the repeating branch enqueues nothing: every session ends
         if r < 0.40: cmds.append(sig(0))
         elif r < 0.65: cmds.append([5])
         elif r < 0.80: cmds.append([2])
